@@ -65,14 +65,14 @@ pub open spec fn decommit_root(c: &Commitment, queries: Seq<(nat, nat)>, auth: S
     root_spec(shifted(queries, c.config.height@), 0, c.config.n_verifier_friendly_commitment_layers@, auth, 0)
 }
 
-//@repo crates/commitment/src/vector/decommit.rs fn vector_commitment_decommit props=C01,C02,C04 rules=H_slice_map_collect
+//@repo crates/commitment/src/vector/decommit.rs fn vector_commitment_decommit props=C01,C02,C04,C05 rules=H_slice_map_collect
 pub fn vector_commitment_decommit(
     commitment: Commitment,
     queries: &[Query],
     witness: Witness,
 ) -> (r: Result<(), Error>)
     ensures
-        r.is_ok() <==> decommit_root(&commitment, query_pairs(queries@), fv(witness.authentications@)) == Some(commitment.commitment_hash@), // [C01,C02,C04:decommit-ok-iff-walk-yields-committed-root]
+        r.is_ok() <==> decommit_root(&commitment, query_pairs(queries@), fv(witness.authentications@)) == Some(commitment.commitment_hash@), // [C01,C02,C04,C05:decommit-ok-iff-walk-yields-committed-root]
 {
     let shift = Felt::TWO.pow_felt(&commitment.config.height);
     // Shifts the query indices by shift=2**height, to convert index representation to heap-like.
@@ -114,7 +114,7 @@ pub fn vector_commitment_decommit(
 }
 //@end
 
-//@repo crates/commitment/src/vector/decommit.rs fn compute_root_from_queries props=C01,C02,C04
+//@repo crates/commitment/src/vector/decommit.rs fn compute_root_from_queries props=C01,C02,C04,C05
 pub fn compute_root_from_queries(
     mut queue: Vec<QueryWithDepth>,
     start: usize,
@@ -123,8 +123,8 @@ pub fn compute_root_from_queries(
     auth_start: usize,
 ) -> (r: Result<Felt, Error>)
     ensures
-        r.is_ok() <==> root_spec(queue_view(queue@), start as nat, n_verifier_friendly_layers@, fv(authentications@), auth_start as nat) is Some, // [C01,C02,C04:walk-errs-exactly-when-a-needed-node-is-missing]
-        r.is_ok() ==> root_spec(queue_view(queue@), start as nat, n_verifier_friendly_layers@, fv(authentications@), auth_start as nat) == Some(r->Ok_0@), // [C01,C02,C04:walk-computes-root-spec]
+        r.is_ok() <==> root_spec(queue_view(queue@), start as nat, n_verifier_friendly_layers@, fv(authentications@), auth_start as nat) is Some, // [C01,C02,C04,C05:walk-errs-exactly-when-a-needed-node-is-missing]
+        r.is_ok() ==> root_spec(queue_view(queue@), start as nat, n_verifier_friendly_layers@, fv(authentications@), auth_start as nat) == Some(r->Ok_0@), // [C01,C02,C04,C05:walk-computes-root-spec]
     decreases authentications@.len() - auth_start, queue@.len() - start, // [C17:walk-consumes-a-node-or-two-entries-per-step]
 {
     let current = queue.get(start).ok_or(Error::IndexInvalid)?;
@@ -184,10 +184,10 @@ pub fn compute_root_from_queries(
 }
 //@end
 
-//@repo crates/commitment/src/vector/decommit.rs fn hash_friendly_unfriendly props=C01,C02,C04
+//@repo crates/commitment/src/vector/decommit.rs fn hash_friendly_unfriendly props=C01,C02,C04,C05
 fn hash_friendly_unfriendly(x: Felt, y: Felt, is_verifier_friendly: bool) -> (r: Felt)
     ensures
-        r@ == node_hash(x@, y@, is_verifier_friendly), // [C01,C02,C04:node-hash-poseidon-or-masked-digest-of-be32-children]
+        r@ == node_hash(x@, y@, is_verifier_friendly), // [C01,C02,C04,C05:node-hash-poseidon-or-masked-digest-of-be32-children]
 {
     if is_verifier_friendly {
         poseidon_hash(x, y)
